@@ -643,7 +643,7 @@ func (w *world) run(cfg config, feat bool, o *opReq, t *table, subs []submission
 					if ob.Kind == "panic" {
 						panic(fmt.Sprintf("ServeGraphQL panicked on %s %s %q", s.HTTP.Method, s.HTTP.url(), s.HTTP.Body))
 					}
-					obs[k] = append(obs[k], ob.sexp())
+					obs[k] = appendObs(obs[k], ob.sexp())
 				}
 			} else {
 				decs[k] = w.dec.decodeWS(*s.WS, w.caseNo)
@@ -653,7 +653,7 @@ func (w *world) run(cfg config, feat bool, o *opReq, t *table, subs []submission
 				// started document that mentions a subscription is awaited by its own complete)
 				async := (o.Sub || strings.Contains(s.WS.Raw, "subscription")) && len(decs[k].List) > 0 && decs[k].List[0].Sym == "start"
 				for _, v := range variants {
-					obs[k] = append(obs[k], v.serveWS(*s.WS, feat, async, w.caseNo).sexp())
+					obs[k] = appendObs(obs[k], v.serveWS(*s.WS, feat, async, w.caseNo).sexp())
 				}
 			}
 		}
@@ -688,6 +688,21 @@ func (w *world) run(cfg config, feat bool, o *opReq, t *table, subs []submission
 		sexp.T("subs", items...))
 }
 
+// appendObs: an observation identical to the previous one of the submission (the usual case: the API
+// built through the clone path answers like the one built directly) is written as (same)
+func appendObs(list []sexp.Node, n sexp.Node) []sexp.Node {
+	if len(list) > 0 {
+		prev := list[len(list)-1]
+		for i := len(list) - 1; i >= 0 && len(prev.List) == 1 && prev.List[0].Sym == "same"; i-- {
+			prev = list[i]
+		}
+		if prev.String() == n.String() {
+			return append(list, sexp.T("same"))
+		}
+	}
+	return append(list, n)
+}
+
 func initNodes(plans []string) []sexp.Node {
 	var out []sexp.Node
 	for _, p := range plans {
@@ -720,7 +735,6 @@ func main() {
 			return func() string { n++; return fmt.Sprintf("c%d-%d%s", idx, n, special[(idx+n)%len(special)]) }
 		}
 		cfgs := allConfigs()
-		deepLimit = h.Thorough()
 
 		// 1. exhaustive: every configuration x feature state x base operation, all canonical envelopes
 		for _, cfg := range cfgs {
@@ -773,6 +787,23 @@ func main() {
 					return w.run(cfg, true, o, t, subs)
 				})
 			}
+			if h.Thorough() && pi == 0 {
+				// the library's nesting limit at its real size: each of the two texts once per transport
+				for k := nRawKinds - 2; k < nRawKinds; k++ {
+					o, k, idx := o, k, h.Index()
+					h.Case(func(r *rng.R) sexp.Node {
+						nestFull = true
+						defer func() { nestFull = false }()
+						t := &table{}
+						id := ids(idx)
+						subs := canonical(t, o, id)
+						for choice := 0; choice < 3; choice++ {
+							subs = append(subs, *rawSubOn(o, k, choice, id))
+						}
+						return w.run(cfg, true, o, t, subs)
+					})
+				}
+			}
 			n := len(malformedSubs(&table{}, o, rng.New(1), ids(0)))
 			for k := 0; k < n; k += 4 {
 				o, k, idx := o, k, h.Index()
@@ -800,7 +831,9 @@ func main() {
 		// 3. random requests, random configuration, with alias and malformed envelopes mixed in
 		n := 2200
 		if h.Thorough() {
-			n = 60000
+			// bounded by the size of the case file (about 8 kB per case) and the run time of the
+			// extracted model: about 150 MB and 6 minutes
+			n = 17000
 		}
 		for i := 0; i < n; i++ {
 			idx := h.Index()
